@@ -515,7 +515,9 @@ fn _factor_inner<T: FloatT>(
 
     if !logical_factor {
         // First element of the diagonal D.
-        D[0] = Ax[0];
+        if Ap[1] > Ap[0] {
+            D[0] = Ax[Ap[0]];
+        }
         if regularize_enable {
             let sign = T::from_i8(Dsigns[0]).unwrap();
             if D[0] * sign < regularize_eps {
